@@ -23,4 +23,4 @@ MANIFEST = dict(
 
 def run(ctx):
     ledger_common.run(ctx, "C11", exhaustive=dict(quick="c11_quick", thorough="c11_thorough"),
-                      negatives=[("c11_neg", ["VotesAtBoundary"])], sim="c11_sim", sim_quick=100, sim_thorough=3000, depth=9)
+                      negatives=[("c11_neg", ["VotesAtBoundary"])], sim="c11_sim", sim_quick=150, sim_thorough=3000, depth=9)
